@@ -68,9 +68,53 @@ def first_letter_guarded(ctx, g):
            "w[%s] is read of every rotation of every relator: stabilizer() panics on a presentation with a trivial relator such as a a^-1 (its only rotation is the empty word)" % ", ".join(bad))
 
 
+def trace_word_shape(ctx, g):
+    """stabilizer::trace_word(point, w, edge_to_word, ct) rewrites w, read from row `point`, in the Schreier generators: for every letter g, in
+    order, the word of the edge (p, g) at the CURRENT row is appended, then p moves on to ct.get(p, g).  The lookup must see the row before
+    the step (decided by dominance: the product comes before the step inside one round, and the step's result feeds the next round)"""
+    ctx.clauses.append("trace_word: for every letter g of w in order: result *= word(p, g) at the current row, then p := ct.get(p, g) (T9)")
+    b = ctx.body(S + "trace_word")
+    ctx.scan([b])
+    point, w, e2w, ct = (("param", k, b.debug.get(k, "")) for k in (1, 2, 3, 4))
+    loops = natural_loops(b)
+    bad = None
+    if len(loops) != 1:
+        bad = "%d loops" % len(loops)
+    else:
+        h, blocks = loops[0]
+        blocks = set(blocks)
+        muls = [(bi, strip(norm(b.origin(t["args"][1]), g))) for bi, t in b.calls("MulAssign::mul_assign")]
+        if len(muls) != 1 or muls[0][0] not in blocks:
+            bad = "not one product per letter"
+        else:
+            mb, mv = muls[0]
+            gets = [x for x in subterms(mv) if isinstance(x, tuple) and x and x[0] == "call" and x[1].endswith("::get") and strip(x[2][0]) == e2w]
+            key = strip(gets[0][2][1]) if len(gets) == 1 else None
+            if key is None or key[0] != "agg" or len(key[2]) != 2 or strip(key[2][0])[0] != "local":
+                bad = "the word appended is not edge_to_word.get(&(p, g)): %s" % show(mv, 1)[:70]
+            else:
+                p, gl = strip(key[2][0]), strip(key[2][1])
+                src = iter_source(b, gl, g)
+                defs = [(dbb, strip(norm(t_, g))) for dbb, t_ in b.all_defs_origins(p[1])]
+                ini = [t_ for dbb, t_ in defs if dbb not in blocks]
+                stp = [(dbb, t_) for dbb, t_ in defs if dbb in blocks]
+                okstep = len(stp) == 1 and is_call(stp[0][1], "Option::<T>::unwrap") and is_call(strip(stp[0][1][2][0]), "CosetTable::get") and \
+                    [strip(y) for y in strip(stp[0][1][2][0])[2]] == [ct, p, gl]
+                if ini != [point] or not okstep:
+                    bad = "the row is not `p = point; p = ct.get(p, g).unwrap()` once per letter"
+                elif not (isinstance(src, tuple) and contains(norm(src, g), lambda y: y == w)):
+                    bad = "the letters are not those of w"
+                elif not (b.dominates(mb, stp[0][0]) and mb != stp[0][0]):
+                    bad = "the edge word is looked up AFTER the row has moved on (it must be the word of the edge leaving the current row)"
+                elif strip(norm(b.local_origin(0), g)) != strip(norm(b.origin(b.blocks[mb]["term"]["args"][0]), g)):
+                    bad = "the word returned is not the product accumulated"
+    ctx.ob("T9-trace-word", b.name, "rewrite", "ok" if not bad else "violation", "result *= word(p, g); p := ct.get(p, g) for every letter of w, from row `point`" if not bad else bad)
+
+
 def run(ctx):
     g = ctx.facts.getters()
     first_letter_guarded(ctx, g)
+    trace_word_shape(ctx, g)
     stab(ctx, g)
     close_rel(ctx, g)
     tree(ctx, g)
